@@ -28,6 +28,12 @@ func mixedString(t *rapid.T, maxLen int) string {
 	for i := range rs {
 		rs[i] = gen.Pick(t, "r", c11Runes)
 	}
+	if maxLen > 4 && n > 0 && rapid.IntRange(0, 39).Draw(t, "longsubject") == 0 {
+		// the same characters repeated past 1 KiB, 4 KiB or 64 KiB (where
+		// implementations switch to another algorithm or buffer)
+		target := gen.Pick(t, "longbytes", []int{1024, 1100, 4097, 8193, 65537})
+		return strings.Repeat(string(rs), target/len(string(rs))+1)
+	}
 	return string(rs)
 }
 
@@ -173,7 +179,11 @@ func c11Op(t *rapid.T, str func(max int) string, sub func(s string, max int) str
 	case "index-of-split":
 		e = ast.Call("split", ast.A(S), ast.A(ast.RawS(""))).With(ast.Step{Kind: ast.SIndex, Index: int64(rapid.IntRange(-n, n).Draw(t, "idx"))})
 	case "replace":
-		args := []ast.Arg{ast.A(S), ast.A(supply("p", jv.VStr(sub(s, 2)))), ast.A(supply("q", jv.VStr(str(3))))}
+		oldStr := sub(s, 2)
+		if rapid.IntRange(0, 5).Draw(t, "emptyold") == 0 {
+			oldStr = "" // what it means is not pinned; that the result is valid UTF-8 is
+		}
+		args := []ast.Arg{ast.A(S), ast.A(supply("p", jv.VStr(oldStr))), ast.A(supply("q", jv.VStr(str(3))))}
 		if rapid.Bool().Draw(t, "hascount") {
 			args = append(args, ast.A(ast.Lit(jv.VInt(int64(rapid.IntRange(0, 3).Draw(t, "count"))))))
 		}
@@ -205,6 +215,23 @@ func TestC11_Strings(t *testing.T) {
 		c.Case()
 		res, _ := model.Eval(e, doc)
 		if res.Undet != "" {
+			// what the value is is not pinned -- that nothing panics and that
+			// every string in the result of valid UTF-8 input is valid UTF-8, is
+			node := run.FromVal(doc)
+			call := run.Call{API: "search", Expr: text, Doc: &node}
+			run.Watch(c, "strings", call)
+			out := run.Search(text, node.Build())
+			msg := ""
+			switch {
+			case out.Panic != "":
+				msg = "library panicked: " + out.Panic
+			case out.IsValue() && out.Info.BadUTF8:
+				msg = "the result on valid UTF-8 input contains a string that is not valid UTF-8: " + truncate(out.String(), 300)
+			}
+			if msg != "" {
+				c.Fail(t, run.Replay{Check: "strings", Kind: "custom:c11-valid", Calls: []run.Call{call}, Message: msg}, op+":valid")
+				return
+			}
 			c.Skip(res.Undet)
 			return
 		}
@@ -512,5 +539,21 @@ func init() {
 			return "malformed replay"
 		}
 		return c11CaseVerdict(ex.Fn, doCall(r.Calls[0]))
+	}
+}
+
+
+func init() {
+	customReplays["custom:c11-valid"] = func(r run.Replay) string {
+		for _, call := range r.Calls {
+			o := doCall(call)
+			if o.Panic != "" {
+				return "library panicked: " + o.Panic
+			}
+			if o.IsValue() && o.Info.BadUTF8 {
+				return "the result contains a string that is not valid UTF-8"
+			}
+		}
+		return ""
 	}
 }
